@@ -31,11 +31,13 @@ cargo's change tracking picks up any edit of the path dependencies in common.REP
 CLI:  python3 /verif/engines/k.py <family> [quick|thorough] [--prop Cxx] [--only substr]
       prints one JSON record per line + a summary; exit 0 iff every record is `holds`.
 """
+import atexit
 import fcntl
 import json
 import os
 import re
 import shutil
+import signal
 import subprocess
 import sys
 import threading
@@ -59,7 +61,7 @@ K_SLOTS = int(os.environ.get("VERIF_K_SLOTS", "6"))       # concurrent cargo-kan
 K_POOL = int(os.environ.get("VERIF_K_POOL", "12"))        # number of target dirs in /verif/.cache
 MEM_KB = int(os.environ.get("VERIF_K_MEM_KB", str(12 * 1024 * 1024)))  # ulimit -v per process
 BUILD_ALLOWANCE_S = 400                                   # cold build of a slot (generous)
-HARNESS_TIMEOUT = {"quick": 120, "thorough": 900}         # --harness-timeout, seconds
+HARNESS_TIMEOUT = {"quick": 200, "thorough": 900}         # --harness-timeout, seconds
 BATCH_BUDGET = {"quick": 230, "thorough": 2700}           # verification seconds per batch (sum cap)
 
 STUB_BRANCH_HINT = "stub: plonky2_util::branch_hint -> no-op (empty inline asm, no semantics)"
@@ -164,9 +166,11 @@ def _fri_params():
           "verify_fri_proof on the degenerate instance (0 oracles, 0 query rounds, degree_bits 0); unwind 4",
           "verify_fri_proof(..).is_ok() <=> canonical(pow_response).leading_zeros() >= proof_of_work_bits",
           est=45, assumptions=[STUB_BRANCH_HINT, STUB_FMT, STUB_BACKTRACE], role="pow-acceptance"),
-        H("fri_params::arity_fixed_is_identity", [R + "FriReductionStrategy::reduction_arity_bits"],
-          "Fixed(v), len(v) <= 3, all contents, all other arguments; unwind 5",
-          "Fixed(v).reduction_arity_bits(..) == v", est=3, role="fixed-schedule"),
+        H("fri_params::arity_fixed_is_identity_len0", [R + "FriReductionStrategy::reduction_arity_bits"],
+          "Fixed([]), all other arguments; unwind 5", "Fixed(v).reduction_arity_bits(..) == v", est=3, role="fixed-schedule"),
+        H("fri_params::arity_fixed_is_identity_len3", [R + "FriReductionStrategy::reduction_arity_bits"],
+          "Fixed(v), len(v) = 3, all contents, all other arguments; unwind 5",
+          "Fixed(v).reduction_arity_bits(..) == v", est=5, role="fixed-schedule"),
         H("fri_params::arity_constant_postconditions", [R + "FriReductionStrategy::reduction_arity_bits"],
           "ConstantArityBits(a, f): 1<=a<=4, f<=10, degree_bits<=10, rate_bits<=3, cap_height<=4, any num_queries; unwind 13",
           "no panic; all entries == a; sum <= degree_bits; stops exactly when degree <= 2^f or a further reduction would "
@@ -185,13 +189,12 @@ def _fri_params():
         H("fri_params::fri_params_getters_fixed",
           [M + "FriParams::total_arities", M + "FriParams::lde_bits", M + "FriParams::lde_size",
            M + "FriParams::final_poly_bits", M + "FriParams::final_poly_len"],
-          "reduction_arity_bits of length <= 3, entries <= 8, sum <= degree_bits <= 24, rate_bits <= 8; unwind 5",
+          "reduction_arity_bits of length 3, entries 0..=8, sum <= degree_bits <= 24, rate_bits <= 8; unwind 5",
           "getters agree with their definitions", est=5,
           assumptions=["kani::assume(sum of arities <= degree_bits) (what reduction_arity_bits guarantees)"], role="derived-lengths"),
     ]
-    for d, r, opt, unwind, est in [(0, 3, None, 4, 15), (1, 3, None, 5, 20), (2, 1, None, 6, 25), (3, 3, None, 7, 30),
-                                   (4, 3, None, 8, 45), (5, 1, None, 9, 100), (3, 0, 1, 7, 25), (4, 3, 2, 8, 40),
-                                   (5, 3, 3, 9, 100), (6, 3, 3, 10, 200), (6, 3, None, 10, 300)]:
+    for d, r, opt, unwind, est in [(0, 3, None, 4, 7), (1, 3, None, 5, 20), (2, 1, None, 6, 60), (3, 3, None, 7, 60),
+                                   (4, 3, None, 8, 300), (3, 0, 1, 7, 60), (4, 3, 2, 8, 200)]:
         nm = "d%d_r%d_%s" % (d, r, "none" if opt is None else "max%d" % opt)
         hs.append(H("fri_params::arity_min_size_%s" % nm,
                     [R + "FriReductionStrategy::reduction_arity_bits", R + "min_size_arity_bits",
@@ -200,7 +203,100 @@ def _fri_params():
                     "any cap_height; unwind %d (recursion depth <= degree_bits + 1)"
                     % ("None" if opt is None else "Some(%d)" % opt, d, r, unwind),
                     "no panic; entries in 1..=max; non-increasing; sum <= degree_bits",
-                    tier="quick" if est <= 45 else "thorough", est=est, role="min-size-schedule"))
+                    tier="quick" if est <= 20 else "thorough", est=est, role="min-size-schedule"))
+    return hs
+
+
+def _codec():
+    S = "plonky2/src/util/serialization/mod.rs::"
+    bh = [STUB_BRANCH_HINT]
+
+    def rt(name, what, fns, bounds, est=5, assumptions=(), role=None):
+        return H("codec::" + name, [S + f for f in fns] + [S + "<Vec<u8> as Write>::write_all", S + "<Buffer as Read>::read_exact"],
+                 bounds, "read_X(write_X(v)) == v and the reader consumes exactly the written bytes: " + what,
+                 tier="quick" if est <= 45 else "thorough", est=est, assumptions=assumptions,
+                 role=role or "roundtrip-mismatch")
+    hs = [
+        rt("rt_bool_u8_u16_u32", "bool, u8, u16, u32 written back to back",
+           ["Write::write_bool", "Read::read_bool", "Write::write_u8", "Read::read_u8", "Write::write_u16", "Read::read_u16",
+            "Write::write_u32", "Read::read_u32"], "all values; unwind 10"),
+        rt("rt_usize", "usize", ["Write::write_usize", "Read::read_usize"], "all 2^64 values; unwind 10"),
+    ]
+    for n in (0, 1, 2):
+        hs.append(rt("rt_usize_vec_len%d" % n, "Vec<usize>", ["Write::write_usize_vec", "Read::read_usize_vec"],
+                     "len = %d, all contents; unwind 6" % n))
+    hs += [
+        rt("rt_field", "GoldilocksField (any representation in, canonical out)", ["Write::write_field", "Read::read_field"],
+           "all 2^64 representations; unwind 10", assumptions=bh),
+        rt("rt_field_ext2", "QuadraticExtension<GoldilocksField>", ["Write::write_field_ext", "Read::read_field_ext"],
+           "all 2^128 limb pairs; unwind 10", assumptions=bh),
+        rt("rt_target_wire", "Target::Wire", ["Write::write_target", "Read::read_target"], "all row/column; unwind 10"),
+        rt("rt_target_virtual", "Target::VirtualTarget", ["Write::write_target", "Read::read_target"], "all indices; unwind 10"),
+        rt("rt_target_bool_and_ext", "BoolTarget, ExtensionTarget<2>",
+           ["Write::write_target_bool", "Read::read_target_bool", "Write::write_target_ext", "Read::read_target_ext"],
+           "all variants/indices; unwind 10", est=8),
+        rt("rt_hash", "HashOut<GoldilocksField> (PoseidonHash)",
+           ["Write::write_hash", "Read::read_hash", "plonky2/src/hash/hash_types.rs::HashOut::to_bytes",
+            "plonky2/src/hash/hash_types.rs::HashOut::from_bytes"][0:2], "all 4 limbs, any representation; unwind 36",
+           est=70, assumptions=bh),
+        rt("rt_merkle_cap_h0", "MerkleCap, cap_height 0", ["Write::write_merkle_cap", "Read::read_merkle_cap"],
+           "1 hash, all contents; unwind 36", est=80, assumptions=bh),
+        rt("rt_fri_reduction_strategy_constant", "FriReductionStrategy::ConstantArityBits",
+           ["Write::write_fri_reduction_strategy", "Read::read_fri_reduction_strategy"], "all parameters; unwind 10"),
+        rt("rt_fri_reduction_strategy_minsize_none", "FriReductionStrategy::MinSize(None)",
+           ["Write::write_fri_reduction_strategy", "Read::read_fri_reduction_strategy"], "-; unwind 10"),
+        rt("rt_fri_reduction_strategy_minsize_some", "FriReductionStrategy::MinSize(Some(m))",
+           ["Write::write_fri_reduction_strategy", "Read::read_fri_reduction_strategy"], "all m; unwind 10"),
+        rt("rt_fri_reduction_strategy_fixed2", "FriReductionStrategy::Fixed",
+           ["Write::write_fri_reduction_strategy", "Read::read_fri_reduction_strategy"], "len = 2, all contents; unwind 6", est=10),
+        rt("rt_fri_config", "FriConfig", ["Write::write_fri_config", "Read::read_fri_config"],
+           "all field values, strategy ConstantArityBits(a, f); unwind 10", est=10),
+        rt("rt_fri_params", "FriParams", ["Write::write_fri_params", "Read::read_fri_params"],
+           "all field values, strategy MinSize(Some(m)), reduction_arity_bits of len 2; unwind 6", est=70),
+        rt("rt_circuit_config", "CircuitConfig", ["Write::write_circuit_config", "Read::read_circuit_config"],
+           "all field values, strategy ConstantArityBits(a, f); unwind 10", est=40),
+    ]
+    return hs
+
+
+def _decoders():
+    S = "plonky2/src/util/serialization/mod.rs::"
+    rd = S + "<Buffer as Read>::read_exact"
+    hs = []
+    for n in (0, 1, 3, 4, 7, 9):
+        hs.append(H("decoders::dec_scalars_len%d" % n,
+                    [S + "Read::read_u8", S + "Read::read_bool", S + "Read::read_u16", S + "Read::read_u32", S + "Read::read_usize", rd],
+                    "all byte strings of length %d; unwind 12" % n,
+                    "read_{u8,bool,u16,u32,usize}: Ok iff enough bytes (and bool byte in {0,1}), little-endian value, "
+                    "pos advances by the size; never panics", est=5, role="scalar-decoder"))
+    hs.append(H("decoders::dec_read_field_arbitrary_len8", [S + "Read::read_field", "field/src/goldilocks_field.rs::from_canonical_u64", rd],
+                "all 2^64 byte strings of length 8; unwind 12",
+                "read_field::<GoldilocksField> never panics and returns a canonical element (limb < p)",
+                est=3, role="noncanonical-u64"))
+    for n in (0, 7, 8, 12):
+        hs.append(H("decoders::dec_read_field_canonical_len%d" % n, [S + "Read::read_field", rd],
+                    "all byte strings of length %d whose first limb (if present) is < p; unwind 12" % n,
+                    "read_field: Ok(limb) iff >= 8 bytes, pos advances by 8; never panics", est=3,
+                    assumptions=["kani::assume(first 8 bytes, little endian, < p)"] if n >= 8 else [], role="field-decoder"))
+    hs.append(H("decoders::dec_read_hash_arbitrary_len32",
+                [S + "Read::read_hash", "plonky2/src/hash/hash_types.rs::<HashOut as GenericHashOut>::from_bytes", rd],
+                "all byte strings of length 32; unwind 36",
+                "read_hash::<_, PoseidonHash> never panics and returns canonical limbs", est=10, role="noncanonical-u64"))
+    for n in (31, 32):
+        hs.append(H("decoders::dec_read_hash_canonical_len%d" % n,
+                    [S + "Read::read_hash", "plonky2/src/hash/hash_types.rs::<HashOut as GenericHashOut>::from_bytes", rd],
+                    "all byte strings of length %d with all four limbs < p; unwind 36" % n,
+                    "read_hash: Ok(limbs) iff >= 32 bytes; never panics", est=10,
+                    assumptions=["kani::assume(each limb < p)"] if n >= 32 else [], role="hash-decoder"))
+    for n in (0, 1, 8, 9, 16, 17):
+        hs.append(H("decoders::dec_read_target_len%d" % n, [S + "Read::read_target", S + "Read::read_bool", S + "Read::read_usize", rd],
+                    "all byte strings of length %d; unwind 12" % n,
+                    "read_target: Ok iff tag in {0,1} and 9 resp. 17 bytes present; consumes exactly that; never panics",
+                    est=4, role="target-decoder"))
+    hs.append(H("decoders::dec_read_usize_vec_small_prefix_len16", [S + "Read::read_usize_vec", rd],
+                "all byte strings of length 16 with length prefix <= 3; unwind 5",
+                "Ok(v) iff prefix <= 1, len(v) = prefix, pos = 8 + 8*prefix", est=5,
+                assumptions=["kani::assume(length prefix <= 3)"], role="usize-vec-decoder"))
     return hs
 
 
@@ -208,6 +304,8 @@ HARNESSES = {
     "util_perm": ("C15", _util_perm),
     "field_addsub": ("C14", _field_addsub),
     "fri_params": ("C05", _fri_params),
+    "codec": ("C17", _codec),
+    "decoders": ("C18", _decoders),
 }
 
 TRUSTED = ["Kani 0.68 MIR->goto translation, CBMC 6.11 + CaDiCaL", "rustc front end of Kani's pinned toolchain"]
@@ -287,15 +385,45 @@ def _kani_cmd(names, target, harness_timeout, extra=()):
     return cmd + list(extra)
 
 
+_live = set()          # process groups of running cargo-kani invocations (killed if we die)
+_live_lock = threading.Lock()
+
+
+def _kill_live(*_a):
+    with _live_lock:
+        for pg in list(_live):
+            try:
+                os.killpg(pg, signal.SIGKILL)
+            except OSError:
+                pass
+    if _a:      # called as a signal handler
+        os._exit(130)
+
+
+atexit.register(_kill_live)
+
+
 def _run_limited(cmd, cwd, wall_timeout, log_path, env=None):
-    """Run under `ulimit -v` (address space, inherited by every child incl. each cbmc) and `timeout`.
+    """Run under `ulimit -v` (address space, inherited by every child incl. each cbmc) and `timeout`,
+    in its own process group (so that nothing - cargo, kani-driver, cbmc - survives this engine).
     Output -> log_path.  Returns (rc, seconds)."""
     sh = "ulimit -v %d; exec timeout -k 10 %d \"$@\"" % (MEM_KB, int(wall_timeout))
     t0 = time.time()
     with open(log_path, "w") as lf:
-        p = subprocess.run(["bash", "-c", sh, "k"] + cmd, cwd=cwd, stdout=lf, stderr=subprocess.STDOUT,
-                           env=common.env_offline(env))
-    return p.returncode, time.time() - t0
+        p = subprocess.Popen(["bash", "-c", sh, "k"] + cmd, cwd=cwd, stdout=lf, stderr=subprocess.STDOUT,
+                             env=common.env_offline(env), start_new_session=True)
+        with _live_lock:
+            _live.add(p.pid)
+        try:
+            rc = p.wait()
+        finally:
+            try:
+                os.killpg(p.pid, signal.SIGKILL)   # stragglers of a timed-out / interrupted run
+            except OSError:
+                pass
+            with _live_lock:
+                _live.discard(p.pid)
+    return rc, time.time() - t0
 
 
 PRIMARY = os.path.join(common.CACHE, "kani-target-primary-" + _REPO_TAG)
@@ -349,7 +477,7 @@ def run_batch(names, tier, tag, extra=()):
 # ---------------------------------------------------------------------------------------------
 # log parsing
 
-_RE_CHECK = re.compile(r"^Check (\d+): (\S+)\s*\n\s*- Status: (\w+)\s*\n\s*- Description: \"(.*)\"\s*\n(?:\s*- Location: (.*)\n)?",
+_RE_CHECK = re.compile(r"^Check (\d+): (.+?)[ \t]*\n\s*- Status: (\w+)\s*\n\s*- Description: \"(.*)\"\s*\n(?:\s*- Location: (.*)\n)?",
                        re.M)
 
 
@@ -443,9 +571,10 @@ def playback(h, fam, prop, res, want_desc, log_path):
     with _Flock(os.path.join(common.CACHE, "kani-playback.lock")):
         p = subprocess.run(["/bin/sh", sh_path], stdout=subprocess.PIPE, stderr=subprocess.STDOUT,
                            env=common.env_offline({"VERIF_REPO": common.REPO}))
-    tail = p.stdout.decode(errors="replace")[-1500:]
+    out = p.stdout.decode(errors="replace")
+    tail = out[-1500:]
     if p.returncode == 1:
-        pm = re.search(r"panicked at ([^\n]*\n[^\n]*)", tail)
+        pm = re.search(r"panicked at ([^\n]*\n[^\n]*)", out)
         return True, sh_path, "reproduced natively: " + (pm.group(1).replace("\n", " ") if pm else "playback test outcome as predicted")
     if p.returncode == 0:
         return False, sh_path, "native playback of the counterexample does not reproduce the failure"
@@ -616,6 +745,8 @@ def main(argv):
     ap.add_argument("--prop", default=None)
     ap.add_argument("--only", default=None, help="only harnesses whose name contains this")
     a = ap.parse_args(argv)
+    signal.signal(signal.SIGTERM, _kill_live)
+    signal.signal(signal.SIGINT, _kill_live)
     t0 = time.time()
     fams = sorted(HARNESSES) if a.family == "all" else [a.family]
     recs = []
